@@ -15,6 +15,7 @@ from vlib.runner import Check, HypClause, Info, fail, guarded
 
 logging.disable(logging.CRITICAL)
 
+PLAUSIBLE_UNKNOWN = ["13.7.0", "14.7.0", "33.7.0", "53.7.0", "73.7.0", "81.7.40", "96.7.21", "96.14.0", "0.2.8", "24.2.1", "9.7.0", "15.8.0"]  # no common name; also used by preludes
 K_UNITS = ["kW", "kWh", "kvar", "kvarh"]
 PLAIN_UNITS = ["V", "A", "var", "varh"]
 OTHER_UNITS = ["m3", "s", "Hz", "kVA", "W", "Wh", "GJ"]
@@ -47,7 +48,7 @@ def dataset_st(draw, used_cde, used_names):
         cde = draw(st.sampled_from(avail))
     else:
         kind = "unknown"
-        c, d, e = draw(st.integers(0, 255)), draw(st.integers(0, 255)), draw(st.integers(0, 255))
+        c, d, e = draw(st.sampled_from(PLAUSIBLE_UNKNOWN).map(lambda t: tuple(int(x) for x in t.split("."))) | st.tuples(st.integers(0, 255), st.integers(0, 255), st.integers(0, 255)))
         while f"{c}.{d}.{e}" in NAME_OF or f"{c}.{d}.{e}" in used_cde:  # repair, do not reject
             e = (e + 1) % 256
             if e == 0:
@@ -61,19 +62,27 @@ def dataset_st(draw, used_cde, used_names):
     addr = ("" if a is None else f"{a}-") + ("" if b is None else f"{b}:") + cde + ("" if f is None else f"*{f}")
     if cde == "1.0.0":
         d = draw(st.datetimes(min_value=datetime.datetime(2000, 1, 1), max_value=datetime.datetime(2099, 12, 31, 23, 59, 59)))
+        if draw(st.integers(0, 3)) == 3:
+            # wall-clock times that do not exist / exist twice in some time zone (spring forward, fall back) or sit on range edges
+            d = draw(st.sampled_from([datetime.datetime(2021, 3, 28, 2, 30), datetime.datetime(2021, 10, 31, 2, 30), datetime.datetime(2021, 3, 14, 2, 30), datetime.datetime(2024, 10, 6, 2, 15), datetime.datetime(2038, 1, 19, 3, 14, 8), datetime.datetime(2069, 1, 1), datetime.datetime(2099, 12, 31, 23, 59, 59), datetime.datetime(2000, 1, 1)]))
         d = d.replace(microsecond=0)
         v = d.strftime("%y%m%d%H%M%S") + draw(st.sampled_from(["W", "S", ""]))
         return (addr, cde, [(v, None)], ("clock", d))
     nvals = draw(st.sampled_from([1, 1, 1, 1, 1, 2, 3, 6]))
     vals = []
     for _ in range(nvals):
-        vk = draw(st.sampled_from(["k", "k", "plain", "text", "other-unit", "empty"]))
+        vk = draw(st.sampled_from(["k", "k", "plain", "text", "other-unit", "empty", "max-lengths"]))
         if vk == "k":
             vals.append((draw(decimal_st(frac=draw(st.sampled_from([3, 3, 0, 1, 2])))), _randcase(draw, draw(st.sampled_from(K_UNITS)))))
         elif vk == "plain":
             vals.append((draw(decimal_st()), _randcase(draw, draw(st.sampled_from(PLAIN_UNITS)))))
         elif vk == "other-unit":
             vals.append((draw(decimal_st()), draw(st.sampled_from(OTHER_UNITS))))
+        elif vk == "max-lengths":
+            # IEC 62056-21: value up to 32 characters, unit up to 16 characters
+            v = "".join(draw(st.lists(st.sampled_from("0123456789"), min_size=1, max_size=1))) * draw(st.sampled_from([31, 32]))
+            u = draw(st.sampled_from(["m3", "Hz", "kVA"])) + "x" * draw(st.sampled_from([12, 13, 14]))
+            vals.append((v, u[: draw(st.sampled_from([15, 16]))]))
         elif vk == "empty":
             vals.append(("", None))
         else:
@@ -118,7 +127,28 @@ def expected_value(cde, v, u, extra):
     return ("eq", v)
 
 
+TZS = ["UTC", "Europe/Oslo", "America/New_York", "Australia/Lord_Howe", "Pacific/Apia", "Asia/Kathmandu"]
+
+
 def oracle(case) -> Info:
+    import os
+    import time
+
+    tz = TZS[len(case[1]) % len(TZS)]  # the process's local time zone is part of the environment: results must not depend on it
+    old = os.environ.get("TZ")
+    os.environ["TZ"] = tz
+    time.tzset()
+    try:
+        return _oracle(case, tz)
+    finally:
+        if old is None:
+            os.environ.pop("TZ", None)
+        else:
+            os.environ["TZ"] = old
+        time.tzset()
+
+
+def _oracle(case, tz) -> Info:
     sets, text, ident, checksum = case[:4]
     ident = tuple(ident)
     run_prelude(case[4] if len(case) > 4 else "none")
@@ -185,6 +215,7 @@ def oracle(case) -> Info:
     if any(x is not None for _a, _c, _v, x in sets):
         classes.append("clock")
     classes.append("eol:" + ("lf" if "\r" not in text else "crlf"))
+    classes.append(f"tz:{tz}")
     return Info(nontrivial=three_dec and multi, classes=tuple(classes))
 
 
@@ -243,6 +274,7 @@ def build() -> Check:
             "Field names come from vlib/names.py (typed into the harness), not han.obis_map.",
             "Identification text has no trailing blank and does not begin with a backslash; text values avoid ( ) * / !.",
             "Address 1.0.0 is only generated as the clock (no unit).",
+            "The process time zone (TZ + tzset) is switched per case among UTC, Europe/Oslo, America/New_York, Australia/Lord_Howe, Pacific/Apia, Asia/Kathmandu; clock values include non-existent / ambiguous local times.",
         ],
         clauses=[
             HypClause("blocks", block_st, oracle, quick=12000, thorough=300000),
